@@ -96,6 +96,10 @@ pub assume_specification<F: core::str::FromStr>[ str::parse::<F> ](s: &str) -> (
     ensures match r { Ok(v) => parse_spec::<F>(s@) == std::option::Option::Some(v), Err(_) => parse_spec::<F>(s@) is None };
 pub uninterp spec fn eq_ignore_ascii_case_spec(a: Seq<char>, b: Seq<char>) -> bool;
 pub assume_specification[ str::eq_ignore_ascii_case ](a: &str, b: &str) -> (r: bool) ensures r == eq_ignore_ascii_case_spec(a@, b@);
+pub uninterp spec fn str_lower_spec(s: Seq<char>) -> Seq<char>;
+pub uninterp spec fn str_upper_spec(s: Seq<char>) -> Seq<char>;
+pub assume_specification[ str::to_lowercase ](s: &str) -> (r: String) ensures r@ == str_lower_spec(s@);
+pub assume_specification[ str::to_uppercase ](s: &str) -> (r: String) ensures r@ == str_upper_spec(s@);
 pub uninterp spec fn trim_spec(s: Seq<char>) -> Seq<char>;
 pub assume_specification[ str::trim ](s: &str) -> (r: &str) ensures r@ == trim_spec(s@);
 }
